@@ -223,6 +223,8 @@ Step(m0) ==
                   IF \E j \in 1..Len(s.is) : HasCall(s.is[j]) THEN Unspec(m, "call in index of assignment target")
                   ELSE [me EXCEPT !.k = Push(EvalList(Push(k1, [t |-> "storei", site |-> s.site, n |-> Len(s.is)]), s.is), [t |-> "ev", e |-> s.e])]
              [] s.k = "expr" -> [me EXCEPT !.k = Push(Push(k1, [t |-> "drop"]), [t |-> "ev", e |-> s.e])]
+             \* assignment whose target is not rooted at a variable (`f()[0] get 2`): nothing documents it
+             [] s.k = "setx" -> Unspec(m, "assignment target is not a variable")
              [] s.k = "if" -> [me EXCEPT !.k = Push(Push(k1, [t |-> "ifc", s |-> s]), [t |-> "ev", e |-> s.c])]
              [] s.k = "loop" -> [me EXCEPT !.k = Push(Push(Push(k1, [t |-> "loopend", envlen |-> Len(m.env), cur |-> m.cur]), [t |-> "loopc", s |-> s]), [t |-> "ev", e |-> s.c])]
              [] s.k = "block" -> EnterBlock(me, k1, s.b, m.cur)
@@ -297,6 +299,7 @@ Step(m0) ==
            [] e.k = "arr" -> [m EXCEPT !.k = EvalList(Push(rest, [t |-> "mkarr", n |-> Len(e.es)]), e.es)]
            [] e.k = "idx" -> [m EXCEPT !.k = Push(Push(Push(rest, [t |-> "idx"]), [t |-> "ev", e |-> e.i]), [t |-> "ev", e |-> e.a])]
            [] e.k = "call" -> [m EXCEPT !.k = EvalList(Push(rest, [t |-> "apply", f |-> e.f, fs |-> e.site, n |-> Len(e.as)]), e.as)]
+           [] e.k = "member" -> Unspec(m, "member access without a call")
            [] e.k = "mcall" ->
                 IF e.m \in MutMethods /\ IsLv(e.o)
                 THEN \* mutation through an lvalue path: argument first, then the path's indexes
